@@ -30,7 +30,10 @@ SIM_ASSUME = ["sim streams replace sockets (StreamType template seam); TLS/WebSo
 
 CHECKS = {
     "C04": {"jobs": [{"name": "simnet", "target": "simnet", "args": ["--set", "C04"], "thorough_args": ["--thorough"]}], "assumptions": SIM_ASSUME},
-    "C05": {"jobs": [{"name": "simnet", "target": "simnet", "args": ["--set", "C05"], "thorough_args": ["--thorough"]}], "assumptions": SIM_ASSUME},
+    "C05": {"jobs": [{"name": "simnet", "target": "simnet", "args": ["--set", "C05"], "thorough_args": ["--thorough"]},
+                     # destruction / cancellation paths again under ASan+UBSan (use-after-free is the typical failure here), one deviation less
+                     {"name": "simnet-asan", "target": "simnet_asan", "args": ["--set", "C05"], "quick_args": ["--dcap", "1"], "thorough_args": ["--thorough", "--dcap", "2"], "env": ASAN_ENV, "timeout_quick": 900}],
+            "assumptions": SIM_ASSUME},
     "C09": {"jobs": [{"name": "simnet", "target": "simnet", "args": ["--set", "C09"], "thorough_args": ["--thorough"]}], "assumptions": SIM_ASSUME},
     "C10": {"jobs": [{"name": "simnet", "target": "simnet", "args": ["--set", "C10"], "thorough_args": ["--thorough"]}], "assumptions": SIM_ASSUME},
     "C12": {"jobs": [{"name": "simnet", "target": "simnet", "args": ["--set", "C12"], "thorough_args": ["--thorough"]}], "assumptions": SIM_ASSUME},
